@@ -446,6 +446,7 @@ def tauleap_step(rec, netname, spacedesc, chem=None, fields=("state", "k", "D", 
         _assume_inputs(I, st, named_s)
         I.summarise = {"ReactionProp", "Poisson"}
         I.check_lib_pre = False
+        I.check_int_overflow = True        # int arithmetic on event counts must stay in the 32-bit range (the counts are unbounded here)
         if initialize(I, kind, named_s) != 0:
             raise HarnessError("initialize failed")
         obj = algo(I)
@@ -537,8 +538,43 @@ def tauleap_step(rec, netname, spacedesc, chem=None, fields=("state", "k", "D", 
 
 
 # -------------------------------------------------------------------------------- conservation (C02)
+_RLC = {}
+
+
+def _replay_large_counts(system):
+    """real build, tau-leap, a first-order reaction A -> 2 B with about 1.5e9 firings in one leap (3e9 molecules of A in one cell; the
+    firing count itself fits an int): 2 A + B must be conserved exactly; an int product that wraps shifts it by a multiple of 2^32"""
+    kind = "grid" if hasattr(system.space, "w") else "graph"
+    if kind not in _RLC:
+        try:
+            from strengths import RDNetwork, Species, Reaction, RDSystem, RDGridSpace, RDGraphSpace
+            from strengths.rdgraphspace import RDGraphSpaceNode as N_, RDGraphSpaceEdge as E_
+            from .enginelegs import real_run
+            net = RDNetwork(species=[Species("A", D=0), Species("B", D=0)], reactions=[Reaction("A -> 2 B", kf=1.0)])
+            space = RDGridSpace(w=2, h=1, d=1, cell_vol=1.0) if kind == "grid" else RDGraphSpace(nodes=[N_(1.0, 0), N_(1.0, 0)], edges=[E_(0, 1, 1.0, 1.0)])
+            sysm = RDSystem(net, space, state=[3.0e9, 0.0, 0.0, 0.0])
+            bad = False
+            for seed in (1, 2):
+                script = make_script(sysm, "tauleap", 0.5, policy="on_iteration", t_sample=(0,), t_max=10.0, isp="none", seed=seed)
+                data, ts = real_run(script, "tauleap", 1)
+                tot = [2 * (data[k * 4] + data[k * 4 + 1]) + data[k * 4 + 2] + data[k * 4 + 3] for k in range(len(ts))]
+                bad = bad or any(t != tot[0] for t in tot)
+            _RLC[kind] = bad
+        except Exception:
+            _RLC[kind] = False
+    return _RLC[kind]
+
+
 def conservation_per_path(rec, engine):
     def per_path(I, system, before, after, desc):
+        over = [f for f in I.safety if f["kind"] == "signed integer overflow"]
+        if engine != "euler":
+            rec.oblig("%s: int arithmetic on event counts stays within 32 bits (the change applied per species is the exact product coefficient x count)" % engine,
+                      "holds" if not over else "violated", [f["where"] for f in over][:2], 0, desc)
+            if over:
+                rec.violation("conservation:int-overflow:%s" % engine, "one %s step computes a per-species change in int arithmetic that can leave the 32-bit range (%s): with enough firings in one leap the "
+                              "change wraps for one species of a reaction and not for the others - the conserved totals jump by multiples of 2^32 (%s)" % (engine, over[0]["where"], desc),
+                              {"structure": desc, "where": over[0]["where"]}, replayed=_replay_large_counts(system))
         ns, nc = len(system.network.species), system.space.size()
         chem = [int(c) for c in system.chemostats]
         flagged = [s for s in range(ns) if any(chem[s * nc + i] for i in range(nc))]
